@@ -1,5 +1,5 @@
 (* C20 oracle.
-   Record: 1 with_model model conds tuples atoms maxdepth subjects calls slack_us leaked opens stops live
+   Record: 1 with_model model conds tuples atoms maxdepth subjects calls slack_us leaked opens stops live watchdog_us
      subjects = ( (subject pathx ((ot oi r impl) ...)) ... )  as in the C01 record: impl = outcome
                 class of the real Check (default strategy, no deadline) on Targets x relations;
      calls    = ( (api effective_deadline_us elapsed_us) ... )  the deadline / cancellation runs;
@@ -12,7 +12,9 @@
      - check_top with fuel (maxdepth+1)*(max_rels+2)  [check_terminates_depth]  and with fuel
        |atoms|+1 [check_top_terminates] must not contain AFuel (else DIFF) and must agree with each
        other (check_fuel_irrelevant);
-     - the implementation's outcome must be one of the model's outcomes (else DIFF).
+     - the implementation's outcome must be one of the model's outcomes (else DIFF);
+     - a real Check (no deadline, small finite data) that did not return within the watchdog while
+       the model decides within its fuel violates the property itself: queries terminate (PROP).
    Runtime side (the property's own predicate on the implementation's behaviour):
      - every call returned within effective deadline + slack            (else PROP)
      - no goroutine left after the grace period                          (else PROP)
@@ -23,9 +25,18 @@ let impl_s = function 0 -> "T" | 1 -> "F" | 2 -> "Fcycle" | 3 -> "Econd" | 4 -> 
 let impl_aout = function 0 -> Some AT | 1 -> Some AFn | 2 -> Some AFc | 3 -> Some AEc | 4 -> Some AEd | 5 -> Some AEo | _ -> None
 let api_s = function 0 -> "Check" | 1 -> "BatchCheck" | 2 -> "ListObjects" | 3 -> "StreamedListObjects" | 4 -> "ListUsers" | 5 -> "Expand" | _ -> "?"
 
+(* Cross-check of extraction: with ORACLE_DUMP=<file> the values the extracted model computed
+   (universe_closed, max_rels, outcome sets under both fuel bounds as bit masks) are appended, one
+   line per request, and bin/coqreplay_c20.py recomputes them inside Coq with vm_compute. *)
+let dump_chan = match Sys.getenv_opt "ORACLE_DUMP" with
+  | Some p when p <> "" -> Some (open_out_gen [Open_append; Open_creat] 0o644 p)
+  | _ -> None
+let aout_bit = function AT -> 1 | AFn -> 2 | AFc -> 4 | AEc -> 8 | AEd -> 16 | AEo -> 32 | AFuel -> 64
+let mask s = List.fold_left (fun acc a -> acc lor (aout_bit a)) 0 s
+
 let same_set a b = List.for_all (fun x -> List.mem x b) a && List.for_all (fun x -> List.mem x a) b
 
-let model_side model conds tuples atoms maxdepth subjects =
+let model_side id watchdog model conds tuples atoms maxdepth subjects =
   let m = dec_model model in
   let cs = List.map (fun c -> n_of_int (as_int c)) (as_list conds) in
   let store = List.map dec_tuple (as_list tuples) in
@@ -34,7 +45,7 @@ let model_side model conds tuples atoms maxdepth subjects =
   let md = nat_of_int mdi in
   let fuel_d = nat_of_int ((mdi + 1) * (int_of_nat (max_rels m) + 2)) in
   let fuel_a = nat_of_int (List.length ats + 1) in
-  let diffs = ref [] in
+  let diffs = ref [] and props = ref [] in
   let closed = universe_closed m cs store ats in
   if not closed then diffs := "the harness universe of atoms is not closed under sub-problems (universe_closed = false)" :: !diffs;
   List.iter (fun sv ->
@@ -52,31 +63,39 @@ let model_side model conds tuples atoms maxdepth subjects =
           let (set_d, _) = check_top m cs store subj pathx md fuel_d o rel in
           if List.mem AFuel set_d then
             diffs := (where ^ ": model out of fuel with the depth bound (maxdepth+1)*(max_rels+2)") :: !diffs;
-          if closed && amem (o, rel) ats then begin
-            let (set_a, _) = check_top m cs store subj pathx md fuel_a o rel in
+          let set_a_opt = if closed && amem (o, rel) ats then Some (fst (check_top m cs store subj pathx md fuel_a o rel)) else None in
+          (match dump_chan with
+           | Some ch -> Printf.fprintf ch "%s %d %d %d %d\n" id (if closed then 1 else 0) (int_of_nat (max_rels m)) (mask set_d)
+                          (match set_a_opt with Some sa -> mask sa | None -> 0)
+           | None -> ());
+          (match set_a_opt with None -> () | Some set_a ->
             if List.mem AFuel set_a then
               diffs := (where ^ ": model out of fuel with the universe bound |atoms|+1") :: !diffs
             else if not (same_set set_a set_d) then
               diffs := (Printf.sprintf "%s: outcome depends on the fuel: {%s} vs {%s}" where
-                          (String.concat "," (List.map aout_s set_a)) (String.concat "," (List.map aout_s set_d))) :: !diffs
-          end;
+                          (String.concat "," (List.map aout_s set_a)) (String.concat "," (List.map aout_s set_d))) :: !diffs);
           (match impl_aout impl with
            | Some a ->
              if not (List.mem a set_d) then
                diffs := (Printf.sprintf "%s impl=%s model={%s}" where (impl_s impl)
                            (String.concat "," (List.map aout_s set_d))) :: !diffs
            | None ->
-             if impl = 6 then diffs := (where ^ ": the real Check without deadline timed out") :: !diffs)
+             if impl = 6 then begin
+               if List.mem AFuel set_d then diffs := (where ^ ": the real Check hit the watchdog and the model is out of fuel") :: !diffs
+               else props := (Printf.sprintf "%s: the real Check (no deadline, finite data) did not return within the %d s watchdog; the terminating model decides {%s} within its fuel"
+                                where (watchdog / 1000000) (String.concat "," (List.map aout_s set_d))) :: !props
+             end)
         | _ -> failwith "result") (as_list results)
     | _ -> failwith "subject entry") (as_list subjects);
-  !diffs
+  (match dump_chan with Some ch -> flush ch | None -> ());
+  (!diffs, !props)
 
-let f _id vs =
+let f id vs =
   match vs with
-  | [I "1"; with_model; model; conds; tuples; atoms; maxdepth; subjects; calls; slack; leaked; opens; stops; live] ->
-    let diffs = if as_int with_model = 1 then model_side model conds tuples atoms maxdepth subjects else [] in
+  | [I "1"; with_model; model; conds; tuples; atoms; maxdepth; subjects; calls; slack; leaked; opens; stops; live; watchdog] ->
+    let (diffs, mprops) = if as_int with_model = 1 then model_side id (as_int watchdog) model conds tuples atoms maxdepth subjects else ([], []) in
     let slack = as_int slack in
-    let props = ref [] in
+    let props = ref mprops in
     List.iter (fun c ->
       match as_list c with
       | [api; eff; el] ->
